@@ -30,10 +30,11 @@ class HelpResolver(DefaultResolver):
     def create_resolved_command(
         self, result
     ):  # type: (ResolveResult) -> ResolvedCommand
-        result.command.config.enable_lenient_args_parsing()
+        config = result.command.config
+        lenient_args_parsing = config._lenient_args_parsing
+        config.enable_lenient_args_parsing()
 
-        resolved_command = super(HelpResolver, self).create_resolved_command(result)
-
-        result.command.config.disable_lenient_args_parsing()
-
-        return resolved_command
+        try:
+            return super(HelpResolver, self).create_resolved_command(result)
+        finally:
+            config._lenient_args_parsing = lenient_args_parsing
